@@ -96,6 +96,34 @@ def check(sc, info):
         kfix = (info['n'] // 4) * div
         t = rows[kfix]['t']
         errs.append(abs(rows[kfix]['spd'][-1] - (winf + (w0 - winf) * math.exp(-kap * t))))
+    # the same experiment as two concatenated runs, the second with half the step: the recorded (time, speed, position) samples still lie
+    # within the bound of the larger step
+    if not out:
+        dt = info['dt']
+        u = info['unit']
+        f = S.ffactor('Time', u)
+        n1 = max(2, info['n'] // 2)
+        s3 = dict(sc, ops=[['setpwm', info['D']], ['run', ['TimeInterval', dt / f, u], ['TimeInterval', dt * n1 / f, u], None, None],
+                           ['run', ['TimeInterval', dt / 2 / f, u], ['TimeInterval', dt / 2 * (info['n'] - n1) * 2 / f, u], None, None]])
+        r = scen.run_impl(s3, timeout=60)
+        if r['err'] is None:
+            rows = O.rows_si(r['rows'])
+            scale = abs(w0 - winf)
+            worst_w = worst_p = 0.0
+            for row in rows:
+                t = row['t']
+                we = winf + (w0 - winf) * math.exp(-kap * t)
+                pe = th0 + winf * t + (w0 - winf) * (1 - math.exp(-kap * t)) / kap
+                worst_w = max(worst_w, abs(row['spd'][-1] - we))
+                worst_p = max(worst_p, abs(row['pos'][-1] - pe))
+            slack_w = 1e-9 * (abs(winf) + abs(w0)) + 1e-300
+            slack_p = 1e-9 * (abs(th0) + (abs(winf) + abs(w0)) * rows[-1]['t']) + 1e-300
+            if worst_w > 0.4 * kap * dt * scale * (1 + 1e-6) + slack_w:
+                out.append(O.W('speed-bound', f'two concatenated runs (dt={dt!r} s, then dt/2): speed deviates {worst_w!r} rad/s from the closed form at the recorded instants; bound (2/5) kap dt |w0-winf| = {0.4 * kap * dt * scale!r}', s3))
+            elif worst_p > dt * scale * (1 + 1e-6) + slack_p:
+                out.append(O.W('position-bound', f'two concatenated runs (dt={dt!r} s, then dt/2): position deviates {worst_p!r} rad from the closed form at the recorded instants; bound dt |w0-winf| = {dt * scale!r}', s3))
+        elif 'Timeout' not in (r['err'] or ''):
+            out.append(O.W('raises', f'concatenated linear runs raised {r["err"]} {r.get("errmsg")}', s3))
     if not out and errs[0] > 1e-6 * (abs(w0) + abs(winf)) and errs[2] > 1e-7 * (abs(w0) + abs(winf)):
         for a, b in ((errs[0], errs[1]), (errs[1], errs[2])):
             if b > 0 and not (1.5 <= a / b <= 2.7):
